@@ -443,4 +443,15 @@ def oracles(shape, res, ix):
         if len(e) >= 8 and e[3] == 'Failed' and e[5] == 'Panic' and e[6] not in (e[2], 'World::new', 'formatted'):
             bad.append(e)
     out['failed-events-carry-the-payload'] = None if not bad else 'payload mismatch in %s' % bad
+    # the runner / writer contract behind the run verdict (C01): writers count a Failed event whose retries say left > 0
+    # as "retried", not as failed - so a failure in an attempt that is NOT followed by another one must say left == 0 / None
+    bad = []
+    if len(nt) == 1:
+        for e in got_ev:
+            failed_ev = (len(e) >= 6 and e[1] in ('Step', 'Background') and e[3] == 'Failed' and e[5] != 'NotFound') or (len(e) >= 5 and e[1] == 'Hook' and e[3] == 'Failed')
+            if failed_ev:
+                says_retried = e[4] is not None and e[4][1] > 0
+                if says_retried != nt[0][2]:
+                    bad.append('%s carries retries %s but the attempt is %s' % (e[:4], e[4], 'retried' if nt[0][2] else 'final'))
+    out['failed-events-say-retried-iff-the-attempt-is-retried'] = '; '.join(bad) if bad else None
     return out
